@@ -1,2 +1,56 @@
-(* C15 -- statement file *)
-From SV Require Import Filt.Text.
+(* C15 -- the filter parser is total and only accepts what it can faithfully represent. *)
+From Coq Require Import ZArith NArith List Bool.
+From Coq.Strings Require Import Byte.
+From SV Require Import Base.Bytes Base.Py Rx.Syntax Gen.Generated Msg.Types Filt.Text Filt.Value Filt.Simple Filt.RoundTrip
+  Filt.Total Filt.Sound.
+Import ListNotations.
+
+(* For ANY string (a list of code points, lone surrogates included) and any recursion budget,
+   LDAPFilter.from_string returns a filter or raises FilterSyntaxError; no other exception: no loop of
+   the parser, of re.sub or of the matcher runs out of steps, no index is out of range, and the
+   interpreter's RecursionError is converted. *)
+Theorem C15_total :
+  forall d s, match from_string d s with
+              | FOk _ | FErr (FSyn _ _) => True
+              | FErr (FCrash _) => False
+              end.
+Proof. exact from_string_total. Qed.
+
+(* Whenever it accepts, every attribute description and matching rule in the result matches the
+   library's attribute pattern, and the shape is one the text form can express ([wf_tfilter]) ... *)
+Theorem C15_accepted_is_well_formed :
+  forall d s f, from_string d s = FOk f -> wf_tfilter f /\ (tdepth f <= d)%nat.
+Proof. exact from_string_sound. Qed.
+
+(* ... and the result's own text form parses back to the same result. *)
+Theorem C15_accepted_reparses_to_itself :
+  forall d s f, from_string d s = FOk f -> from_string d (bn (print_filter f)) = FOk f.
+Proof. exact accepted_filters_reparse. Qed.
+
+(* an accepted item always consumes input: the loops make progress *)
+Theorem C15_progress :
+  forall d view off len,
+  (forall f n, unpack_filter d view off len = FOk (f, n) -> (1 <= n)%Z) /\
+  (forall f n, unpack_complex d view off len = FOk (f, n) -> (1 <= n)%Z).
+Proof. intros d view off len. destruct (unpack_total d view off len) as [[_ A] [_ B]]. split; assumption. Qed.
+
+(* The clause "RFC 4512-valid" is FALSE of the faithful model for the library's own pattern (known
+   findings, pinned by passing tests): a single-arc numeric OID and a matching rule with options are
+   accepted. *)
+Theorem C15_attribute_pattern_refuted :
+  from_string 5 [40%N; 48%N; 61%N; 120%N; 41%N] = FOk (FEq [x30] [x78]) /\
+  exists f, from_string 5 [40%N; 97%N; 58%N; 114%N; 59%N; 111%N; 58%N; 61%N; 118%N; 41%N] = FOk f.
+Proof. split; [vm_compute; reflexivity|eexists; vm_compute; reflexivity]. Qed.
+
+(* non-vacuity of the accepting branch and of the error branch *)
+Example C15_examples :
+  from_string 5 [32%N; 40%N; 99%N; 110%N; 61%N; 42%N; 41%N; 10%N] = FOk (FPresent [x63; x6e]) /\
+  from_string 5 [40%N; 99%N; 110%N; 61%N; 42%N; 41%N; 41%N] = FErr (FSyn 6 1) /\
+  from_string 5 [40%N; 55296%N; 41%N] = FErr (FSyn 1 1).
+Proof. repeat split; vm_compute; reflexivity. Qed.
+
+Print Assumptions C15_total.
+Print Assumptions C15_accepted_is_well_formed.
+Print Assumptions C15_accepted_reparses_to_itself.
+Print Assumptions C15_progress.
+Print Assumptions C15_attribute_pattern_refuted.
